@@ -156,6 +156,9 @@ def gen_cases(idx, nchunks, tier):
             for b in second:
                 add(op, [a, b])
         add(op, [b'\x01'])
+    # the result of OP_CAT is an element like any other: 520 bytes at most
+    for la, lb in ((260, 260), (260, 261), (261, 260), (520, 0), (0, 520), (520, 1), (1, 520), (519, 1), (519, 2), (300, 300), (520, 520), (0, 0)):
+        add(OP_CAT, [b'a' * la, b'b' * lb])
     for op in TER:
         for a in BLOBS + [num_encode(300)]:
             for b in OFFS:
